@@ -16,78 +16,6 @@
 import BumpverVerif.Proofs.ComposeLemmas
 namespace BV
 
-/-- a class of continuations, described by their first character -/
-structure FSet where
-  digit : Bool
-  lower : Bool
-  lits : List Char
-  atEnd : Bool
-  deriving Repr
-
-def FSet.hasChar (F : FSet) (c : Char) : Bool :=
-  (F.digit && isDigit c) || (F.lower && isLower c) || F.lits.contains c
-
-def FSet.has (F : FSet) : Str → Bool
-  | [] => F.atEnd
-  | c :: _ => F.hasChar c
-
-def FSet.union (A B : FSet) : FSet :=
-  ⟨A.digit || B.digit, A.lower || B.lower, A.lits ++ B.lits, A.atEnd || B.atEnd⟩
-
-/-- only the end of the input follows (the whole version string) -/
-def FSet.endOnly : FSet := ⟨false, false, [], true⟩
-
-def FSet.noDigit (F : FSet) : Bool := !F.digit && F.lits.all (fun c => !isDigit c)
-def FSet.noLower (F : FSet) : Bool := !F.lower && F.lits.all (fun c => !isLower c)
-
-/-- the first characters of what `p` followed by a continuation in `F` can render to -/
-def Pat.first : Pat → FSet → FSet
-  | .done, F => F
-  | .lit c _, _ => ⟨false, false, [c], false⟩
-  | .part n _, _ => if isTagPart n then ⟨false, true, [], false⟩ else ⟨true, false, [], false⟩
-  | .opt body rest, F => (Pat.first body (Pat.first rest F)).union (Pat.first rest F)
-
-/-- the compiled body cannot match at all on a continuation of class `F` -/
-def Pat.failsOn : Pat → FSet → Bool
-  | .lit c _, F => !F.hasChar c
-  | .part n _, F => if isTagPart n then F.noLower else F.noDigit
-  | _, _ => false
-
-def Pat.wf : Pat → FSet → Bool
-  | .done, _ => true
-  | .lit _ rest, F => Pat.wf rest F
-  | .part n rest, F =>
-    (lookup n partDoms).isSome && Pat.wf rest F && (!needND n || (Pat.first rest F).noDigit)
-  | .opt body rest, F =>
-    Pat.wf body (Pat.first rest F) && Pat.wf rest F && Pat.failsOn body (Pat.first rest F)
-
-/-- fields of the parts, left to right -/
-def Pat.fields (p : Pat) : List Str := p.parts.filterMap (fun n => lookup n Gen.partFields)
-
-def nodupStr : List Str → Bool
-  | [] => true
-  | x :: xs => !xs.contains x && nodupStr xs
-
-/-- a supported ("uniquely readable") version pattern -/
-def Pat.wfTop (p : Pat) : Bool := Pat.wf p FSet.endOnly && nodupStr p.fields
-
-/-- the record is in the domain of every part that is rendered -/
-def Pat.vok (v : VInfo) : Pat → Bool
-  | .done => true
-  | .lit _ rest => Pat.vok v rest
-  | .part n rest => partOk v n && Pat.vok v rest
-  | .opt body rest => (Pat.allZero v body || Pat.vok v body) && Pat.vok v rest
-
-/-- (field, text) of every rendered part, in match order -/
-def Pat.caps (v : VInfo) : Pat → List (Str × Str)
-  | .done => []
-  | .lit _ rest => Pat.caps v rest
-  | .part n rest =>
-    match lookup n Gen.partFields, partText v n with
-    | some f, some t => (f, t) :: Pat.caps v rest
-    | _, _ => Pat.caps v rest
-  | .opt body rest => (if Pat.allZero v body then [] else Pat.caps v body) ++ Pat.caps v rest
-
 /-! ### characters and continuation classes -/
 
 theorem cm_isLower_iff (c : Char) : isLower c = true ↔ 97 ≤ c.toNat ∧ c.toNat ≤ 122 := by
